@@ -284,7 +284,7 @@ def _prepare(ctx):
         mm = drive.MachineModel(arch=a)
         _MODELS[a] = (mm, drive.ArchSemantics(mm))
     for isa in ("x86", "aarch64"):
-        _KERNELS[isa] = kernels(isa, 2 if ctx.thorough else 1, ctx.thorough)
+        _KERNELS[isa] = kernels(isa, 2, ctx.thorough)
         dgfam.warm_parse_cache(isa, sorted({r.text for k in _KERNELS[isa] for r in k}))
     return archs
 
@@ -337,7 +337,7 @@ def run(ctx):
                 "register copy, copy-with-offset, post-/pre-indexed access in between, one untracked "
                 "change; different base / index / scale as negatives; non-trivial = kernel with a "
                 "required store->load dependency")
-    res.bounds = {"bumps": 2 if ctx.thorough else 1, "models": archs}
+    res.bounds = {"bumps": 2, "models": archs}
     res.assumptions = [
         "symbolic address tracker mc/ref/dg.py: register = origin + constant | unknown",
         "dependency through an untracked register change is unspecified (counted, not checked)",
